@@ -35,14 +35,71 @@ def rule_converter_flags(chk, ctx):
         if not flags:
             continue
         k = 0
+        mod = ctx.repo.modules.get(rel)
+        consts = {}
+        if mod is not None:
+            for st in mod.tree.body:
+                if isinstance(st, ast.Assign) and len(st.targets) == 1 and isinstance(st.targets[0], ast.Name):
+                    consts[st.targets[0].id] = st.value
+        local = {}
+        for x in ast.walk(f):
+            if isinstance(x, ast.Assign) and len(x.targets) == 1 and isinstance(x.targets[0], ast.Name):
+                local.setdefault(x.targets[0].id, []).append(x.value)
+
+        def mentions(e, depth=0):
+            """True / False / None: does the expression speak about the Write_Forward operation names"""
+            if "Write_Forward" in ast.unparse(e):
+                return True
+            res = False
+            for x in ast.walk(e):
+                if isinstance(x, ast.Name) and x.id not in flags:
+                    vals = local.get(x.id) or ([consts[x.id]] if x.id in consts else [])
+                    for v in vals:
+                        if depth > 3:
+                            return None
+                        m = mentions(v, depth + 1)
+                        if m:
+                            return True
+                        if m is None:
+                            res = None
+                elif isinstance(x, ast.Call) and not (isinstance(x.func, ast.Name) and x.func.id in ("len", "int", "bool", "isinstance")):
+                    res = None if res is False else res
+            return res
+
+        def pol(t):
+            """(announced if the test holds, announced if it fails): True / False / None each"""
+            m = mentions(t)
+            if m is False:
+                return (False, False)
+            if isinstance(t, ast.UnaryOp) and isinstance(t.op, ast.Not):
+                a, b = pol(t.operand)
+                return (b, a)
+            if isinstance(t, ast.Compare) and len(t.ops) == 1 and m is True:
+                if isinstance(t.ops[0], (ast.Eq, ast.In)):
+                    return (True, False)
+                if isinstance(t.ops[0], (ast.NotEq, ast.NotIn)):
+                    return (False, True)
+            if isinstance(t, ast.BoolOp):
+                ps = [pol(v) for v in t.values]
+                tr, fl = [p[0] for p in ps], [p[1] for p in ps]
+
+                def some(xs):       # announced if any of xs is (all hold together)
+                    return True if any(x is True for x in xs) else (False if all(x is False for x in xs) else None)
+
+                def every(xs):      # announced only if all of xs are (one of them holds)
+                    return True if all(x is True for x in xs) else (False if all(x is False for x in xs) else None)
+                if isinstance(t.op, ast.And):
+                    return (some(tr), every(fl))
+                return (every(tr), some(fl))
+            return (None, None)
 
         def walk(body, guard):
             nonlocal k
             for st in body:
                 if isinstance(st, ast.If):
-                    t = ast.unparse(st.test)
-                    walk(st.body, guard + [("+", t)])
-                    walk(st.orelse, guard + [("-", t)])
+                    a, b = pol(st.test)
+                    walk(st.body, guard + [a])
+                    walk(st.orelse, guard + [b])
                     continue
                 if isinstance(st, (ast.While, ast.For, ast.With, ast.Try)):
                     for fld in ("body", "orelse", "finalbody"):
@@ -53,7 +110,7 @@ def rule_converter_flags(chk, ctx):
                 if isinstance(st, ast.Assign) and len(st.targets) == 1 and isinstance(st.targets[0], ast.Name) \
                         and st.targets[0].id in flags:
                     v = st.value
-                    announced = any(s == "+" and "Write_Forward" in t for s, t in guard)
+                    announced = True if any(g is True for g in guard) else (None if any(g is None for g in guard) else False)
                     cons = f"{rel[:-3].replace('/', '.')}.{q}#adj-flag[{k}]"
                     k += 1
                     chk.files.add(rel)
@@ -63,9 +120,9 @@ def rule_converter_flags(chk, ctx):
                     elif announced:
                         chk.decide("C12.ONE", cons, True, "flag set under a test for the preceding Write_Forward", rel=rel, node=st,
                                    nontrivial=False)
-                    elif "Write_Forward" in ast.unparse(v):
-                        chk.decide("C12.ONE", cons, None, f"`{ast.unparse(st)}`: the flag is computed from a test for Write_Forward; "
-                                   "not followed", rel=rel, node=st, nontrivial=False)
+                    elif announced is None or mentions(v) is not False:
+                        chk.decide("C12.ONE", cons, None, f"`{ast.unparse(st)}`: whether this branch is taken only after a "
+                                   "Write_Forward is not followed", rel=rel, node=st, nontrivial=False)
                     elif isinstance(v, ast.Constant) or isinstance(v, (ast.Compare, ast.BoolOp, ast.UnaryOp)):
                         chk.decide("C12.ONE", cons, False,
                                    f"`{ast.unparse(st)}` on a branch that does not test for a preceding Write_Forward: the Forward "
